@@ -3,6 +3,7 @@ package c04
 
 import (
 	"fmt"
+	"math"
 
 	"github.com/golang/geo/r3"
 	"github.com/golang/geo/s2"
@@ -663,6 +664,115 @@ func checkIndexTiling(c indexTiling) ev.Outcome {
 	return o
 }
 
+// ---------------------------------------------------------------- polygons with several shells (and > 12 loops)
+
+type multiPoly struct {
+	F      []gen.RingsPolygon // ring families about distinct cube-face centres (disjoint from each other)
+	Perm   []int              // input order of the loops
+	Probes []gen.P
+}
+
+func genMultiPoly(t *rapid.T) multiPoly {
+	nf := rapid.IntRange(2, 3).Draw(t, "families")
+	faces := rapid.Permutation([]int{0, 1, 2, 3, 4, 5}).Draw(t, "faces")
+	c := multiPoly{}
+	var all []gen.P
+	total := 0
+	for f := 0; f < nf; f++ {
+		centre := s2.Point{Vector: gen.FaceUVToXYZ(faces[f], 0, 0)}
+		k := rapid.IntRange(1, 6).Draw(t, "rings")
+		maxN := rapid.SampledFrom([]int{8, 10, 14, 24}).Draw(t, "maxN")
+		rp := gen.DrawRingsAt(t, fmt.Sprintf("f%d", f), centre, k, maxN, 25*math.Pi/180)
+		c.F = append(c.F, rp)
+		for _, r := range rp.Rings {
+			all = append(all, r...)
+			total++
+		}
+	}
+	idx := make([]int, total)
+	for i := range idx {
+		idx[i] = i
+	}
+	c.Perm = rapid.Permutation(idx).Draw(t, "perm")
+	c.Probes = gen.ProbePoints(t, "q", all, 20)
+	for _, rp := range c.F {
+		c.Probes = append(c.Probes, rp.Center)
+	}
+	return c
+}
+
+func checkMultiPoly(c multiPoly) ev.Outcome {
+	o := ev.Outcome{}
+	var rings [][]gen.P
+	for _, rp := range c.F {
+		rings = append(rings, rp.Rings...)
+	}
+	if len(rings) == 0 || len(c.Perm) != len(rings) {
+		o.Skip = true
+		return o
+	}
+	build := func() *s2.Polygon {
+		var loops []*s2.Loop
+		for _, k := range c.Perm {
+			loops = append(loops, s2.LoopFromPoints(gen.Pts(rings[k])))
+		}
+		return s2.PolygonFromLoops(loops)
+	}
+	poly := build()
+	if poly.Validate() != nil {
+		o.Skip = true
+		return o
+	}
+	var chains [][]r3.Vector
+	nv := 0
+	var all []gen.P
+	for _, r := range rings {
+		chains = append(chains, vecs(r))
+		nv += len(r)
+		all = append(all, r...)
+	}
+	known := c.F[0].Center.Pt()
+	knownInside := len(c.F[0].Rings)%2 == 1
+	idx := s2.NewShapeIndex()
+	shape := build()
+	idx.Add(shape)
+	q := s2.NewContainsPointQuery(idx, s2.VertexModelSemiOpen)
+	comp := build()
+	comp.Invert()
+	twice := build()
+	twice.Invert()
+	twice.Invert()
+	compIdx := s2.NewShapeIndex()
+	compShape := build()
+	compShape.Invert()
+	compIdx.Add(compShape)
+	qc := s2.NewContainsPointQuery(compIdx, s2.VertexModelSemiOpen)
+	o.Class = fmt.Sprintf("families=%d/loops>12=%v/nv>=32=%v", len(c.F), len(rings) > 12, nv >= 32)
+	o.NonTrivial = len(rings) > 12 || nv >= 32
+	for i, pp := range c.Probes {
+		p := pp.Pt()
+		if antipodalish(known, p) {
+			continue
+		}
+		want := exact.ParityContains(chains, known.Vector, knownInside, p.Vector)
+		got := map[string]bool{
+			"Polygon.ContainsPoint":                    poly.ContainsPoint(p),
+			"ContainsPointQuery":                       q.Contains(p),
+			"ShapeContains":                            q.ShapeContains(shape, p),
+			"twice inverted Polygon.ContainsPoint":     twice.ContainsPoint(p),
+			"NOT Invert()ed Polygon.ContainsPoint":     !comp.ContainsPoint(p),
+			"NOT ContainsPointQuery on the complement": !qc.Contains(p),
+		}
+		for name, g := range got {
+			if g != want {
+				o.Err = fmt.Sprintf("probe %d (vertex=%v): %s = %v, exact crossing parity = %v (%d loops in %d families)", i, isVertex(all, pp), name, g, want, len(rings), len(c.F))
+				return o
+			}
+		}
+	}
+	return o
+}
+
 func init() {
 	ev.Define("loop_paths", ev.Options{
 		Rule:  "valid-by-construction loops (regular, star-shaped about special/random centres, lattice rectangles with a vertex at every grid point, cells; 1/4 inverted; sizes 3..300 (thorough 3000) with mass on 31/32/33 and 63/64/65) × 24 probes (vertices, points on edges ±3 ulps, ±2-ulp neighbours of vertices, cell centres/corners, near and far points). Oracle: parity of exact (integer determinant + independent SoS) crossings of the segment from the construction's known interior point, documented shared-vertex rule; compared with Loop.ContainsPoint (fresh / index built), single-loop Polygon, ContainsPointQuery semi-open (lazy and pre-built index) + ShapeContains + ContainingShapes, open/closed models at vertices, ContainsOrigin. Non-trivial: the loop has > 32 vertices and its index ≥ 2 cells, or a probe is exactly a vertex.",
@@ -673,6 +783,9 @@ func init() {
 	ev.Define("polygon_parity", ev.Options{
 		Rule:  "polygons of 1..5 (1 in 10: up to 16, reaching cumulativeEdges) concentric star rings (nesting depth known from the construction) × 24 probes; oracle as loop_paths over all rings; Polygon.ContainsPoint, ContainsPointQuery, ShapeContains, and the Invert()ed complement contains each probe exactly when the polygon does not. Non-trivial: ≥ 32 vertices in total or a probe is a vertex.",
 		Quick: 15000, Thorough: 150000}, genPolyProbe, checkPolygon)
+	ev.Define("polygon_multi_parity", ev.Options{
+		Rule:  "polygons assembled by PolygonFromLoops from the shuffled rings of 2..3 disjoint ring families about distinct cube-face centres (1..6 rings each with 8..24 vertices, so up to 18 loops of different sizes and several top-level shells) x 20 probes + the family centres; oracle = exact crossing parity over all rings; Polygon.ContainsPoint, ContainsPointQuery, ShapeContains; the Invert()ed polygon (direct and through a ShapeIndex) contains a probe exactly when the polygon does not; inverting twice restores the answers. Non-trivial: more than 12 loops or at least 32 vertices.",
+		Quick: 8000, Thorough: 100000}, genMultiPoly, checkMultiPoly)
 	ev.Define("tiling_cells_full", ev.Options{
 		Rule:  "all 6·4^L cell loops of level L ∈ {0,1,2}; probes = cell vertices, points on cell edges ±2 ulps, ±2-ulp neighbours of vertices, uniform points; each probe is contained in exactly one loop. All cases non-trivial.",
 		Quick: 3000, Thorough: 10000}, genTiling, checkTiling)
